@@ -17,6 +17,7 @@ import sys
 import json
 import copy as _copy
 import random as _random
+import zlib
 import hashlib
 
 from sim import backends as B
@@ -61,36 +62,50 @@ class _R(object):
             return '<no repr>'
 
 
+def _res(text):
+    """the result for a call: mostly the text itself (unique per bound arguments), but a fixed fraction of
+    calls return None or another falsy value, which every backend stores losslessly and which a cache
+    must serve like any other result (a stored None is not "missing")"""
+    h = zlib.crc32(text.encode()) % 10
+    if h == 0:
+        return None
+    if h == 1:
+        return ''
+    if h == 2:
+        return 0
+    return text
+
+
 def r_f1(x):
-    return 'f1(%r)' % (_R(x),)
+    return _res('f1(%r)' % (_R(x),))
 
 
 def r_f2(x, y=2):
-    return 'f2(%r,%r)' % (_R(x), _R(y))
+    return _res('f2(%r,%r)' % (_R(x), _R(y)))
 
 
 def r_f3(x, *a):
-    return 'f3(%r,%r)' % (_R(x), _R(a))
+    return _res('f3(%r,%r)' % (_R(x), _R(a)))
 
 
 def r_f4(x, *, k=1):
-    return 'f4(%r,%r)' % (_R(x), _R(k))
+    return _res('f4(%r,%r)' % (_R(x), _R(k)))
 
 
 def r_f5(x, **kw):
-    return 'f5(%r,%r)' % (_R(x), _R(sorted(kw.items())))
+    return _res('f5(%r,%r)' % (_R(x), _R(sorted(kw.items()))))
 
 
 def r_f6(x, y=2, *a, **kw):
-    return 'f6(%r,%r,%r,%r)' % (_R(x), _R(y), _R(a), _R(sorted(kw.items())))
+    return _res('f6(%r,%r,%r,%r)' % (_R(x), _R(y), _R(a), _R(sorted(kw.items()))))
 
 
 def r_f7(x, y=7.26):
-    return 'f7(%r,%r)' % (_R(x), _R(y))
+    return _res('f7(%r,%r)' % (_R(x), _R(y)))
 
 
 def r_f8(x, *, k=7.26):
-    return 'f8(%r,%r)' % (_R(x), _R(k))
+    return _res('f8(%r,%r)' % (_R(x), _R(k)))
 
 
 def f7(x, y=7.26):
